@@ -23,7 +23,7 @@
    remote address matches the pattern — at every cache size. A client whose
    port (or last octet; with n <= 3 more) changes at every request is covered. *)
 From Sessions Require Import Model.Base Model.Sess Model.Hist Model.Corr Proofs.SessDefs
-  Proofs.WriteThrough Proofs.WriteThrough4 Proofs.WriteThrough5
+  Proofs.WriteThrough Proofs.WriteThrough4 Proofs.WriteThrough5 Proofs.RotateLaws3
   Proofs.C01Spec Proofs.C01Hist Proofs.C01Hist4 Proofs.C01Hist7 Proofs.C01Hist10 Proofs.C01Hist11
   Proofs.C01Live Proofs.C01Live2 Proofs.C01Live3 Proofs.C01Live4 Proofs.C01Live5 Proofs.C01Peer5 Proofs.C01Live6.
 From Sessions Require Proofs.HistInv Proofs.HistInv3 Proofs.StartLaws4 Proofs.StartLaws5
@@ -167,8 +167,8 @@ Section Rules.
     - unfold valid_for. cbn [q_addr q_ua]. rewrite Hip', Hua'.
       rewrite (LiveHist5.not_stale (conf (w_st w)) r0 (now (w_st w)) (fl j t0) j Hlb Hle); [reflexivity|].
       pose proof (LiveHist4.fl_slack j t0) as Hs.
-      match goal with E : (_ - t0 + StartLaws4.slack _ < _)%Z |- _ => unfold StartLaws4.slack in E; rewrite Hj in E end.
-      lia.
+      match goal with E : (_ - t0 + StartLaws4.slack _ < _)%Z |- _ =>
+        unfold StartLaws4.slack in E; rewrite Hj in E; clear - E Hs; lia end.
     - split; assumption.
     - split; [exact A|]. split; [exact B|]. exists id, rc. auto.
   Qed.
@@ -276,7 +276,7 @@ Lemma rules_to_acc n cf lg c t x a u :
 Proof.
   intros [Hn HQ] Hg Hr. unfold live_cond_acc. rewrite Hr. cbn [andb fst snd] in *. rewrite Hn. unfold ip_pass.
   destruct HQ as [HQ|HQ]; [rewrite HQ; reflexivity|].
-  destruct x as [[t0 a0] u0]. cbn [fst snd]. rewrite (HQ c t0 a0 u0 Hg). apply Bool.orb_true_r.
+  destruct x as [[t0 a0] u0]. cbn [fst snd]. rewrite (HQ c t0 a0 u0 Hg), Bool.orb_true_r. reflexivity.
 Qed.
 
 Lemma l_run2_rules_of_acc n b j : forall hs cl w,
